@@ -13,7 +13,7 @@ from . import ops, seqs
 from .engine import Engine, State, Raised, FuncV, walk_own
 from .ops import truth, b_and, b_not
 from .values import (EngineError, NONE, ListV, SeqV, OptV, ObjV, MapV, SetV, StrV, ExcV, fresh, shape_of,
-                     is_z3, to_int_term, TSeq, shape_leaves, TInt)
+                     is_z3, to_int_term, TSeq, shape_leaves, TInt, TConst)
 
 QUICK_TIMEOUT_MS = 20000
 THOROUGH_TIMEOUT_MS = 120000
@@ -188,7 +188,12 @@ def build_inputs(con, engine):
         if d is not None:
             defaults[p.arg] = d
     for n in names:
-        if n in con.params:
+        if n in con.params and isinstance(con.params[n], TConst) and isinstance(con.params[n].value, str) and con.params[n].value.startswith("class:"):
+            from .modules import find_function
+            from .engine import ClassRef
+            mi, cnode, _ = find_function(con.params[n].value[len("class:"):])
+            env[n] = ClassRef(cnode, mi)
+        elif n in con.params:
             v, f = fresh(con.params[n], n)
             env[n] = v
             facts.extend(f)
@@ -217,7 +222,7 @@ def build_inputs(con, engine):
 
 
 def verify_contract(con, contracts, tier="quick", externals=None):
-    res = FnResult(con.target)
+    res = FnResult(con.name)
     t0 = time.time()
     timeout = QUICK_TIMEOUT_MS if tier == "quick" else THOROUGH_TIMEOUT_MS
     try:
@@ -235,7 +240,7 @@ def verify_contract(con, contracts, tier="quick", externals=None):
         opts["yield_shape"] = con.yield_shape
     if con.ghost_asserts:
         opts["ghost_asserts"] = con.ghost_asserts
-    E = Engine(con.mod, con.node, con.clsnode, con.target, con.spec_mod, contracts,
+    E = Engine(con.mod, con.node, con.clsnode, con.name, con.spec_mod, contracts,
                raises=set(con.raises_nodes), loops=con.loops, bv=con.bv, modular=con.modular,
                externals=dict(externals or {}, **getattr(con.cls, "externals", {})), options=opts)
     try:
@@ -252,7 +257,7 @@ def verify_contract(con, contracts, tier="quick", externals=None):
         s.set("timeout", 10000)
         s.add(*st.pc)
         cov = s.check()
-        res.covers.append({"name": con.target + "#cover:requires", "sat": str(cov)})
+        res.covers.append({"name": con.name + "#cover:requires", "sat": str(cov)})
         if cov == z3.unsat:
             res.error, res.error_kind = "precondition unsatisfiable (vacuous contract)", "crash"
             return res
@@ -349,7 +354,7 @@ def _select(fnode, amap):
 
 
 def _mk(E, st, kind, node, goal, con, label, env):
-    name = "%s#%s" % (con.target, label)
+    name = "%s#%s" % (con.name, label)
     from .engine import Obligation
     ob = Obligation(name, kind, st.pc, goal, con.node.lineno, "", con.target)
     ob.inputs = env
